@@ -25,6 +25,7 @@ func main() {
 	repo := flag.String("repo", "/repo", "repository root")
 	prop := flag.String("prop", "", "property id (C01..C20); empty = all obligations")
 	tier := flag.String("tier", "quick", "quick or thorough")
+	interf := flag.Bool("interference", false, "read critical sections concurrently: havoc guarded state at Lock, assume/assert lock invariants (implied by -prop C20)")
 	fnFilter := flag.String("func", "", "only this function (debug)")
 	oblFilter := flag.String("obl", "", "only obligations whose name contains this (debug)")
 	dump := flag.String("dump", "", "directory to keep SMT queries (debug)")
@@ -38,6 +39,8 @@ func main() {
 	cfiles := flag.String("cfiles", "", "comma-separated base names of contract files to load (default: all)")
 	devContracts := flag.Bool("dev", false, "use /verif/contracts/verif_contracts.go even if the repo has its own copy (development)")
 	flag.Parse()
+	// C20 is about the registry under concurrency: its run reads critical sections concurrently (see acquireHavoc)
+	interferenceMode = *interf || *prop == "C20"
 	if s := os.Getenv("VERIF_SEED"); s != "" && *seed == 0 {
 		fmt.Sscan(s, seed)
 	}
@@ -56,6 +59,9 @@ func main() {
 			fmt.Fprintln(os.Stderr, "govc: contract error:", err)
 			os.Exit(2)
 		}
+	}
+	if p.interference {
+		p.filterForInterference()
 	}
 	p.computeMods()
 	if *dumpFn != "" {
